@@ -38,7 +38,10 @@ RULE = ("sequential histories of 5-80 ops (QueryRow 30%, QueryRowIndex 20% [Cach
         "101d, 112d, 180d, 1y, 10y} with draws at both ends and the middle (m = 0, 512, 1023) and advances around "
         "0.95e / 1.05e; node / cluster caches are built by struct literals, cache.New (Config of 1-3 nodes) or "
         "cache.NewNode with both / one / none of WithExpire, WithNotFoundExpire; 5% of the reads are issued under an "
-        "already cancelled context (cached and uncached keys); in 70% of the node / cluster histories the cleaner runs "
+        "already cancelled context (cached and uncached keys); at the CachedConn level the query callbacks read the database "
+        "through the sqlx session kinds over sqlmock (conn, prepared statement, transaction, statement prepared in a "
+        "transaction) or a map, with the row present, missing, or the database failing (3%); failing deletes are issued "
+        "from other goroutines / OS threads with runtime.GC() in between, Redis-down faults use miniredis SetError; in 70% of the node / cluster histories the cleaner runs "
         "on a real collection.TimingWheel (1 s x 300 slots, fake ticker ticked once per virtual second, chains driven to "
         "the 1 h stage), otherwise on the abstract timer; jitter draws u=m/1024 scripted per op; the TTL of every key is read back from miniredis after "
         "every op (0 = no expiry); ~22% of the histories inject GET/SET/DEL faults per "
@@ -74,6 +77,9 @@ ASSUMPTIONS = ["c06_one_query_in_flight is proved from C18's transcription of si
                "redis.ClusterType (per-key DEL loop in node.DelCtx) and a JSON object stored under an index key are not modelled"]
 
 NPK, NIX = 4, 3
+# how the query callbacks of the CachedConn level read the database: a Go map directly, or the real sqlx session kinds
+# over sqlmock (Conn.QueryRowCtx, PrepareCtx + StmtSession.QueryRowCtx, inside TransactCtx, prepared inside TransactCtx)
+VIAS = ["", "conn", "stmt", "stmt", "tx", "txstmt"]
 EXPIRIES = [(100, 10), (20, 5), (60, 10), (3600, 60), (604800, 60)]
 DAY = 86400
 # the TTL stream: long configured expiries (WithExpire / WithNotFoundExpire), 1 h .. 10 y; 101 d and above exceed
@@ -144,11 +150,22 @@ def gen_case(rng, level, faulty, long_chain=False, long_ttl=False):
             else:
                 ops.append({"op": "qrowc", "id": rng.randrange(NPK), "u": _draws(rng, 1)})
             continue
+        if rng.random() < 0.03:
+            # the database query fails with an error other than not-found
+            ops.append({"op": "qrowe", "id": rng.randrange(NPK), "u": _draws(rng, 1)})
+            if level == "sqlc":
+                ops[-1]["via"] = rng.choice(VIAS)
+            continue
+        if level != "sqlc" and delfault and rng.random() < 0.08:
+            ops.append({"op": "gc"})       # between failing deletes: pooled / per-P state below the cleaner is dropped
+            continue
         if r < 0.30:
             ops.append({"op": "qrow", "id": rng.randrange(NPK), "u": _draws(rng, 1)})
+            if level == "sqlc":
+                ops[-1]["via"] = rng.choice(VIAS)
         elif r < 0.50:
             if level == "sqlc":
-                ops.append({"op": "qidx", "ix": rng.randrange(NIX), "u": _draws(rng, 2)})
+                ops.append({"op": "qidx", "ix": rng.randrange(NIX), "u": _draws(rng, 2), "via": rng.choice(VIAS)})
             else:
                 ops.append({"op": "qrow", "id": rng.randrange(NPK), "u": _draws(rng, 1)})
         elif r < 0.70:
@@ -176,9 +193,13 @@ def gen_case(rng, level, faulty, long_chain=False, long_ttl=False):
             if wj[0] != "fail":
                 db = new
             ops.append({"op": "exec", "w": wj, "keys": keys})
+            if level != "sqlc" and rng.random() < 0.4:
+                ops[-1]["go"] = True      # the delete is issued from a goroutine of its own (another OS thread)
         elif r < 0.75:
             ks = rng.sample(_universe(), rng.randint(0, 3))
             ops.append({"op": "del", "keys": ks})
+            if level != "sqlc" and rng.random() < 0.4:
+                ops[-1]["go"] = True
         elif r < 0.80:
             k = rng.choice(_universe()) if level == "sqlc" else ["pk", rng.randrange(NPK)]
             v = _view(db, k)
@@ -224,10 +245,48 @@ def gen_case(rng, level, faulty, long_chain=False, long_ttl=False):
     return c
 
 
+def gen_shared(rng):
+    """reads that share an in-flight query while the executing goroutine goes on: the leader of key 0 is held inside
+    its query, 1-6 readers wait in its flight; when it is released the SAME goroutine immediately makes further calls
+    (SetCache of other keys' rows = further JSON marshalling) before the waiters decode the shared result. One P."""
+    threads, sched = [], []
+
+    def add(**kw):
+        t = {"w": False, "key": 0, "val": 0, "ga": 0, "gb": 0, "gc": 0}
+        t.update(kw)
+        threads.append(t)
+        return len(threads) - 1
+
+    nkeys = rng.randint(2, 4)
+    vals = {k: 100 * (k + 1) + rng.randint(1, 99) for k in range(nkeys)}     # distinct per key, same number of digits
+    for k in range(nkeys):
+        sched.append(["t", add(w=True, key=k, val=vals[k])])
+    others = [k for k in range(nkeys) if k != 0]
+    for k in others:
+        if rng.random() < 0.5:
+            sched.append(["t", add(key=k)])          # some other keys are cached already
+    then = [{"w": False, "s": True, "key": k, "val": vals[k], "ga": 0, "gb": 0, "gc": 0}
+            for k in [rng.choice(others) for _ in range(rng.randint(1, 3))]]
+    i = len(threads)
+    lead = add(key=0, ga=10 * i + 1 if rng.random() < 0.7 else 0, gb=10 * i + 2, then=then)
+    sched.append(["t", lead])
+    for _ in range(rng.randint(1, 6)):
+        sched.append(["t", add(key=0)])
+    if threads[lead]["ga"]:
+        sched.append(["o", threads[lead]["ga"]])
+    sched.append(["o", threads[lead]["gb"]])
+    sched += [["t", lead]] * len(then)               # the model starts the further calls of the goroutine here
+    for k in range(nkeys):
+        sched.append(["t", add(key=k)])
+    return {"level": "conc", "expire": 100, "nfexpire": 10, "nnodes": 1, "threads": threads, "sched": sched, "ops": []}
+
+
 def gen_conc(rng, kind=None):
     """one call per thread (reader QueryRowCtx / writer ExecCtx of one key) under a forced schedule.
     gates of thread i: 10*i+1 (before the database access), 10*i+2 (after it), 10*i+3 (the SET / DEL in Redis)."""
-    kind = kind or rng.choice(["stampede", "stampede", "cancel", "overlap", "overlap", "mixed"])
+    kind = kind or rng.choice(["stampede", "stampede", "cancel", "overlap", "overlap", "mixed", "shared", "shared"])
+    if kind == "shared":
+        return gen_shared(rng)
     threads, sched = [], []
 
     def add(w, key, val=0, ga=False, gb=False, gc=False):
@@ -363,6 +422,24 @@ def search(rng, problems):
             ops += [{"op": "del", "keys": [["pk", 0]]}, {"op": "qrowc", "id": 0, "u": [512]}, {"op": "qrow", "id": 0, "u": [7]},
                     {"op": "set", "key": ["pk", 3], "val": ["row", 3, 2, 9], "u": [1023]}, {"op": "adv", "dt": 1}]
             out.append({"level": level, "expire": e, "nfexpire": nfe, "nnodes": nn, "ops": ops, "ctor": ctor, "opts": opts, "wheel": "real"})
+    # every session kind x {row exists, missing, failing database}, second read of the missing row
+    for via in ("", "conn", "stmt", "tx", "txstmt"):
+        out.append({"level": "sqlc", "expire": 100, "nfexpire": 10, "nnodes": 1, "ops": [
+            {"op": "exec", "w": ["put", 1, 0, 7], "keys": [["pk", 1], ["ix", 0]]},
+            {"op": "qrow", "id": 1, "u": [3], "via": via}, {"op": "qrow", "id": 2, "u": [3], "via": via}, {"op": "qrow", "id": 2, "u": [3], "via": via},
+            {"op": "qrowe", "id": 3, "u": [3], "via": via}, {"op": "qrow", "id": 3, "u": [3], "via": via},
+            {"op": "qidx", "ix": 0, "u": [3, 4], "via": via}, {"op": "qidx", "ix": 1, "u": [3, 4], "via": via}, {"op": "qidx", "ix": 1, "u": [3, 4], "via": via},
+            {"op": "del", "keys": [["pk", 1]]}, {"op": "qrowe", "id": 1, "u": [3], "via": via}, {"op": "qidx", "ix": 0, "u": [3, 4], "via": via}]})
+    # failed deletes of different keys pending together, issued from different goroutines with GCs in between
+    for level, nn in (("node", 1), ("cluster", 3)):
+        for wheel in ("real", "abs"):
+            ops = [{"op": "fault", "node": -1, "g": True, "s": True, "d": True}]
+            for i in range(4):
+                ops += [{"op": "del", "keys": [["pk", i]], "go": i % 2 == 1}, {"op": "gc"}]
+            ops += [{"op": "adv", "dt": 7}, {"op": "exec", "w": ["put", 1, 0, 3], "keys": [["ix", 0]], "go": True}, {"op": "gc"},
+                    {"op": "del", "keys": [["ix", 1]]}, {"op": "adv", "dt": 2}, {"op": "fault", "node": -1, "g": False, "s": False, "d": False},
+                    {"op": "adv", "dt": 70}, {"op": "adv", "dt": 1}]
+            out.append({"level": level, "expire": 100, "nfexpire": 10, "nnodes": nn, "ops": ops, "ctor": "new", "opts": "both", "wheel": wheel})
     out.append({"level": "sqlc", "expire": 100, "nfexpire": 10, "nnodes": 1, "ops": [
         {"op": "exec", "w": ["put", 1, 0, 7], "keys": [["pk", 1], ["ix", 0]]}, {"op": "qidx", "ix": 0, "u": [5, 6]},
         {"op": "qrowc", "id": 1, "u": [1]}, {"op": "qidxc", "ix": 0, "u": [1, 2]}, {"op": "qrowc", "id": 2, "u": [1]},
@@ -374,7 +451,7 @@ def search(rng, problems):
                 {"op": "qrow", "id": 1, "u": [m]}, {"op": "qrow", "id": 2, "u": [m]},
                 {"op": "del", "keys": [["pk", 1]]}, {"op": "qidx", "ix": 0, "u": [m, m]}, {"op": "qidx", "ix": 1, "u": [m, m]},
                 {"op": "set", "key": ["pk", 3], "val": ["row", 3, 2, 9], "u": [m]}]})
-    for kind in ("stampede", "cancel", "overlap", "mixed"):
+    for kind in ("stampede", "cancel", "overlap", "mixed", "shared"):
         for _ in range(15):
             out.append(gen_conc(rng, kind))
     # a writer held before its database write while a reader fills the cache; a leader cancelled with followers waiting
@@ -448,7 +525,7 @@ def cres(o):
     if r == "row":
         a = o["row"]
         return "(RRow %s %s %s)" % (cnat(a[0]), cnat(a[1]), cnat(a[2]))
-    return {"nf": "RNotFound", "cerr": "RCacheErr", "ok": "ROk", "execerr": "RExecErr", "ctx": "RCtxErr"}.get(r, "RUnmodelled")
+    return {"nf": "RNotFound", "cerr": "RCacheErr", "ok": "ROk", "execerr": "RExecErr", "ctx": "RCtxErr", "dberr": "RDbErr"}.get(r, "RUnmodelled")
 
 
 def cop(o):
@@ -456,6 +533,10 @@ def cop(o):
     u = (o.get("u") or [512]) + [512, 512]
     if k == "qrow":
         return "XQRow %s %s" % (cnat(o["id"]), cZ(u[0]))
+    if k == "qrowe":
+        return "XQRowE %s" % cnat(o["id"])
+    if k == "gc":
+        return "XGc"
     if k == "qrowc":
         return "XQRowC %s" % cnat(o["id"])
     if k == "qidxc":
@@ -478,19 +559,21 @@ def cop(o):
     raise ValueError(k)
 
 
-CONC_NONE = "[] [] [] [] [] []"
+CONC_NONE = "[] [] [] [] [] [] []"
 
 
 def ccop(t):
-    return "CA.mkcop %s %s %s %s %s %s" % (cbool(t["w"]), cnat(t["key"]), cnat(t["val"]), cnat(t["ga"]), cnat(t["gb"]), cnat(t["gc"]))
+    return "CA.mkcop %s %s %s %s %s %s %s" % (cbool(t["w"]), cnat(t["key"]), cnat(t["val"]), cnat(t["ga"]), cnat(t["gb"]), cnat(t["gc"]),
+                                             cbool(t.get("s", False)))
 
 
 def encode_conc(case, obs):
     threads = clist([ccop(t) for t in case["threads"]])
     sched = clist([{"t": "LStart %s", "o": "LOpen %s", "c": "LCancel %s"}[k] % cnat(v) for k, v in case["sched"]])
     head = "mkcase 3%%nat %s %s 1%%nat [] [] [] [] 0%%Z %s %s" % (cZ(case["expire"]), cZ(case["nfexpire"]), threads, sched)
+    more = clist([cpair(cnat(i), clist([ccop(f) for f in t["then"]])) for i, t in enumerate(case["threads"]) if t.get("then")])
     if not isinstance(obs, dict) or "events" not in obs or obs.get("aborted"):
-        return head + " [OStart 0 0; OStart 0 0; OEv (CA.EQBegin 0 0); OEv (CA.EQBegin 0 0)] [] [] []"   # fails both checkers
+        return head + " [OStart 0 0; OStart 0 0; OEv (CA.EQBegin 0 0); OEv (CA.EQBegin 0 0)] [] [] [] " + more   # fails both checkers
     evs = []
     for kind, t, k, v in obs["events"]:
         if kind == 0:
@@ -507,21 +590,26 @@ def encode_conc(case, obs):
             evs.append("ORet %s" % cnat(t))
         else:
             evs.append("OStart %s %s" % (cnat(t), cnat(k)))
+    def one(r, key):
+        if r == "ctx":
+            return "None"
+        if r in ("nf", "ok"):
+            return "(Some 0%nat)"
+        if isinstance(r, list) and r[0] == "row" and (len(r) < 3 or r[2] == key):
+            return "(Some %s)" % cnat(r[1])
+        return "(Some 4997%nat)"     # unexpected error, or a row of another key: no model result equals it
     res = []
-    for r in obs["res"]:
-        if r is None:
-            res.append("None")
-        elif r == "ctx":
-            res.append("(Some None)")
-        elif r in ("nf", "ok"):
-            res.append("(Some (Some 0%nat))")
-        elif isinstance(r, list) and r[0] == "row":
-            res.append("(Some (Some %s))" % cnat(r[1]))
+    for i, rs in enumerate(obs["res"]):
+        ops = [case["threads"][i]] + case["threads"][i].get("then", [])
+        if rs is None:
+            res.append("[]")
         else:
-            res.append("(Some (Some 4997%nat))")     # unexpected error: no model result equals it
+            if not isinstance(rs, list) or (rs and rs[0] == "row"):
+                rs = [rs]
+            res.append(clist([one(r, ops[min(j, len(ops) - 1)]["key"]) for j, r in enumerate(rs)]))
     cache = clist([copt(None if v is None else cnat(v if v >= 0 else 4999)) for v in obs["cache"]])
     db = clist([cnat(v) for v in obs["db"]])
-    return "%s %s %s %s %s" % (head, clist(evs), clist(res), cache, db)
+    return "%s %s %s %s %s %s" % (head, clist(evs), clist(res), cache, db, more)
 
 
 def encode(case, obs):
@@ -606,7 +694,9 @@ def bucket(case, obs):
         out.append("conc:followers=%d" % min(len(followers), 8))
         if any(k == "c" for k, _ in case["sched"]):
             out.append("conc:cancel")
-        if any(r == "ctx" for r in obs["res"]):
+        if any(t.get("then") for t in case["threads"]):
+            out.append("conc:leader-goes-on-while-waiters-decode")
+        if any(r == "ctx" or (isinstance(r, list) and "ctx" in r) for r in obs["res"]):
             out.append("conc:ctx-error-returned")
         if any(t["w"] and (t["ga"] or t["gb"] or t["gc"]) for t in case["threads"]):
             out.append("conc:writer-parked")
@@ -640,6 +730,15 @@ def bucket(case, obs):
         if ob["r"] == "nf" and dq == 0:
             out.append("placeholder-hit")
             break
+    for o, ob in zip(case["ops"], obs["ops"]):
+        if o.get("via"):
+            out.append("via:%s:%s" % (o["via"], ob["r"] if not ob["r"].startswith("err:") else "err"))
+        if o["op"] == "qrowe":
+            out.append("db-error:" + ob["r"])
+    if any(o["op"] == "gc" for o in case["ops"]):
+        out.append("gc-between-deletes")
+    if any(o.get("go") for o in case["ops"]):
+        out.append("delete-from-other-goroutine")
     live = set()
     for o, ob in zip(case["ops"], obs["ops"]):
         if o["op"] in ("qrowc", "qidxc"):
